@@ -165,6 +165,7 @@ func vC25_dispatch_roundtrip() {
 	if err != nil {
 		return
 	}
+	known := true
 	switch g := got.(type) {
 	case *remote.VC25Msg:
 		vAssert(kind == 0 && g.Name == remote.VC25ProtoName && vC25_bytesEq(g.Payload, payload), "a protobuf frame is decoded to an equal protobuf message")
@@ -179,8 +180,9 @@ func vC25_dispatch_roundtrip() {
 		}
 		vCover("primitive")
 	default:
-		vAssert(false, "the decoded value has one of the registered types")
+		known = false
 	}
+	vAssert(known, "the decoded value has one of the registered types")
 	vCover("end")
 }
 
